@@ -1,0 +1,65 @@
+//go:build verif
+
+package keeper
+
+// Machine-checked contracts for the govc verifier (/verif). Comment-only; compiled only with -tags verif.
+
+//@ pred terminal(st): st == types.OrderStatusCompleted || st == types.OrderStatusCanceled || st == types.OrderStatusExpired
+//@ pred feeOf(rate, amt): trunc(decMulTrunc(dec(amt), rate))
+
+// Order termination (C07, C04): a terminated order is final - finishing it again changes nothing (so its unspent offer
+// coin is refunded exactly once); finishing a live order takes exactly the unspent offer coin plus the whole swap-fee
+// reserve out of the pair escrow: the unspent offer coin and the part of the reserve not attributable to the executed
+// portion go back to the orderer, the rest of the reserve goes to the pair's fee collector; the stored status becomes final.
+//@ func (k Keeper) FinishOrder
+//@   property C07, C04
+//@   modular
+//@   modifies liquidity, bank
+//@   let O = order
+//@   let pair = k.GetPair(ctx, O.AppId, O.PairId).0
+//@   let rate = k.GetGenericLiquidityParams(ctx, O.AppId).0.SwapFeeRate
+//@   let esc = addr(pair.EscrowAddress)
+//@   let fc = addr(pair.SwapFeeCollectorAddress)
+//@   let own = addr(O.Orderer)
+//@   let d = O.OfferCoin.Denom
+//@   let mm = O.Type == types.OrderTypeMM
+//@   let F = ite(mm, 0, feeOf(rate, O.OfferCoin.Amount))
+//@   let f = ite(mm, 0, feeOf(rate, O.OfferCoin.Amount - O.RemainingOfferCoin.Amount))
+//@   let R = O.RemainingOfferCoin.Amount
+//@   requires #params-exist: k.GetGenericLiquidityParams(ctx, O.AppId).1
+//@   requires #accounts: esc != fc && esc != own && fc != own
+//@   requires #order-shape: O.RemainingOfferCoin.Denom == d && R >= 0 && R <= O.OfferCoin.Amount && rate >= 0 && rate <= ONE
+//@   ensures #c07-terminated-order-is-final: terminal(O.Status) ==> result == nil && unchanged()
+//@   ensures #c07-escrow-released-exactly: result == nil && !terminal(O.Status) ==> bal(esc, d) == old(bal(esc, d)) - R - F
+//@   ensures #c07-refund-exact: result == nil && !terminal(O.Status) ==> bal(own, d) == old(bal(own, d)) + R + ite(R > 0, F - ite(R == O.OfferCoin.Amount, 0, f), 0)
+//@   ensures #c07-other-denoms-untouched: result == nil ==> forall a, dd :: dd != d ==> bal(a, dd) == old(bal(a, dd))
+//@   ensures #c07-other-orders-untouched: forall a, p, i :: (a != O.AppId || p != O.PairId || i != O.Id) ==> k.GetOrder(ctx, a, p, i) == old(k.GetOrder(ctx, a, p, i))
+//@   ensures #c07-index-untouched: forall w, a, p :: k.GetMMOrderIndex(ctx, w, a, p) == old(k.GetMMOrderIndex(ctx, w, a, p))
+//@   ensures #c07-pairs-untouched: forall a, p :: k.GetPair(ctx, a, p) == old(k.GetPair(ctx, a, p))
+//@   ensures #c07-params-untouched: forall a :: k.GetGenericLiquidityParams(ctx, a) == old(k.GetGenericLiquidityParams(ctx, a))
+//@   ensures #c07-order-identity-kept: result == nil && !terminal(O.Status) ==> k.GetOrder(ctx, O.AppId, O.PairId, O.Id).0.AppId == O.AppId && k.GetOrder(ctx, O.AppId, O.PairId, O.Id).0.PairId == O.PairId && k.GetOrder(ctx, O.AppId, O.PairId, O.Id).0.Id == O.Id && k.GetOrder(ctx, O.AppId, O.PairId, O.Id).0.Orderer == O.Orderer && k.GetOrder(ctx, O.AppId, O.PairId, O.Id).0.OfferCoin == O.OfferCoin && k.GetOrder(ctx, O.AppId, O.PairId, O.Id).0.RemainingOfferCoin == O.RemainingOfferCoin
+//@   ensures #c07-error-keeps-orders: result != nil ==> forall a, p, i :: k.GetOrder(ctx, a, p, i) == old(k.GetOrder(ctx, a, p, i))
+//@   ensures #c07-status-final: result == nil && !terminal(O.Status) ==> k.GetOrder(ctx, O.AppId, O.PairId, O.Id).1 && k.GetOrder(ctx, O.AppId, O.PairId, O.Id).0.Status == status
+
+//@ pred live(o): o.Status == types.OrderStatusNotExecuted || o.Status == types.OrderStatusNotMatched || o.Status == types.OrderStatusPartiallyMatched
+
+// Cancelling market-making orders (C07): after a successful call no order listed in the owner's market-making index of
+// that (app, pair) is still live - each one was cancelled and refunded through FinishOrder - and the index is removed.
+//@ func (k Keeper) cancelMMOrder
+//@   property C07
+//@   let ix = k.GetMMOrderIndex(ctx, orderer, appID, pair.Id)
+//@   let ids = k.GetMMOrderIndex(ctx, orderer, appID, pair.Id).0.OrderIds
+//@   requires #orders-keyed: forall a, p, i :: k.GetOrder(ctx, a, p, i).1 ==> k.GetOrder(ctx, a, p, i).0.AppId == a && k.GetOrder(ctx, a, p, i).0.PairId == p && k.GetOrder(ctx, a, p, i).0.Id == i
+//@   requires #orders-shaped: forall a, p, i :: k.GetOrder(ctx, a, p, i).0.RemainingOfferCoin.Denom == k.GetOrder(ctx, a, p, i).0.OfferCoin.Denom && k.GetOrder(ctx, a, p, i).0.RemainingOfferCoin.Amount >= 0 && k.GetOrder(ctx, a, p, i).0.RemainingOfferCoin.Amount <= k.GetOrder(ctx, a, p, i).0.OfferCoin.Amount
+//@   requires #params: forall a :: k.GetGenericLiquidityParams(ctx, a).1 && k.GetGenericLiquidityParams(ctx, a).0.SwapFeeRate >= 0 && k.GetGenericLiquidityParams(ctx, a).0.SwapFeeRate <= ONE
+//@   requires #pair-accounts: forall a, p :: addr(k.GetPair(ctx, a, p).0.EscrowAddress) != addr(k.GetPair(ctx, a, p).0.SwapFeeCollectorAddress)
+//@   requires #orderers-are-not-pair-accounts: forall a, p, i :: addr(k.GetOrder(ctx, a, p, i).0.Orderer) != addr(k.GetPair(ctx, a, p).0.EscrowAddress) && addr(k.GetOrder(ctx, a, p, i).0.Orderer) != addr(k.GetPair(ctx, a, p).0.SwapFeeCollectorAddress)
+//@   requires #index-keyed: ix.1 ==> ix.0.PairId == pair.Id && addr(ix.0.Orderer) == orderer
+//@   loop 0 invariant #done: forall j :: 0 <= j && j < idx0 ==> !(k.GetOrder(ctx, appID, pair.Id, ids[j]).1 && live(k.GetOrder(ctx, appID, pair.Id, ids[j]).0))
+//@   loop 0 invariant #shaped: forall a, p, i :: k.GetOrder(ctx, a, p, i).0.RemainingOfferCoin.Denom == k.GetOrder(ctx, a, p, i).0.OfferCoin.Denom && k.GetOrder(ctx, a, p, i).0.RemainingOfferCoin.Amount >= 0 && k.GetOrder(ctx, a, p, i).0.RemainingOfferCoin.Amount <= k.GetOrder(ctx, a, p, i).0.OfferCoin.Amount
+//@   loop 0 invariant #params: forall a :: k.GetGenericLiquidityParams(ctx, a).1 && k.GetGenericLiquidityParams(ctx, a).0.SwapFeeRate >= 0 && k.GetGenericLiquidityParams(ctx, a).0.SwapFeeRate <= ONE
+//@   loop 0 invariant #pair-accounts: forall a, p :: addr(k.GetPair(ctx, a, p).0.EscrowAddress) != addr(k.GetPair(ctx, a, p).0.SwapFeeCollectorAddress)
+//@   loop 0 invariant #orderers-are-not-pair-accounts: forall a, p, i :: addr(k.GetOrder(ctx, a, p, i).0.Orderer) != addr(k.GetPair(ctx, a, p).0.EscrowAddress) && addr(k.GetOrder(ctx, a, p, i).0.Orderer) != addr(k.GetPair(ctx, a, p).0.SwapFeeCollectorAddress)
+//@   loop 0 invariant #keyed: forall a, p, i :: k.GetOrder(ctx, a, p, i).1 ==> k.GetOrder(ctx, a, p, i).0.AppId == a && k.GetOrder(ctx, a, p, i).0.PairId == p && k.GetOrder(ctx, a, p, i).0.Id == i
+//@   ensures #c07-mm-cancel-covers-every-indexed-order: err == nil && ix.1 ==> forall j :: 0 <= j && j < len(ids) ==> !(k.GetOrder(ctx, appID, pair.Id, ids[j]).1 && live(k.GetOrder(ctx, appID, pair.Id, ids[j]).0))
+//@   ensures #c07-mm-index-removed: err == nil ==> !k.GetMMOrderIndex(ctx, orderer, appID, pair.Id).1
